@@ -32,6 +32,146 @@ type Env struct {
 	inPhi    map[*ssa.Phi]bool
 	// for the body of a function literal: the MakeClosure that binds its free variables (Parent = env of the enclosing function)
 	closure *ssa.MakeClosure
+	// when the literal is CALLED (through a variable, a parameter or a field): Parent/Call describe the call site (parameters),
+	// defEnv the env of the function in which the literal was created (free variables)
+	defEnv *Env
+	// a bound method value `f := x.m` called as f(args): the receiver x, in the env where the method value was made
+	boundRecv ssa.Value
+	boundEnv  *Env
+}
+
+// defining: the env in which the free variables of this literal are bound.
+func (e *Env) defining() *Env {
+	if e.defEnv != nil {
+		return e.defEnv
+	}
+	return e.Parent
+}
+
+// funcTarget: one function a func-typed value may denote, with what binds its free variables / receiver.
+type funcTarget struct {
+	fn        *ssa.Function
+	mc        *ssa.MakeClosure
+	defEnv    *Env
+	boundRecv ssa.Value
+}
+
+// funcTargets resolves a func-typed value to the function literals, functions and bound methods it may denote, following
+// parameters to call sites, local variables, captured variables and fields of parameter objects. nil = cannot tell.
+func (e *Env) funcTargets(v ssa.Value, depth int) []funcTarget {
+	if depth > 8 {
+		return nil
+	}
+	switch x := v.(type) {
+	case *ssa.Function:
+		return []funcTarget{{fn: x}}
+	case *ssa.MakeClosure:
+		fn, _ := x.Fn.(*ssa.Function)
+		if fn == nil {
+			return nil
+		}
+		if fn.Synthetic != "" && len(x.Bindings) == 1 {
+			if real := unwrapSynthetic(fn); real != nil && real != fn {
+				return []funcTarget{{fn: real, defEnv: e, boundRecv: x.Bindings[0]}}
+			}
+		}
+		return []funcTarget{{fn: fn, mc: x, defEnv: e}}
+	case *ssa.Parameter:
+		if a, pe := e.actual(x); a != nil {
+			return pe.funcTargets(a, depth+1)
+		}
+	case *ssa.ChangeType:
+		return e.funcTargets(x.X, depth+1)
+	case *ssa.Phi:
+		var out []funcTarget
+		for _, ed := range x.Edges {
+			if ed == ssa.Value(x) {
+				continue
+			}
+			ts := e.funcTargets(ed, depth+1)
+			if ts == nil {
+				return nil
+			}
+			out = append(out, ts...)
+		}
+		return out
+	case *ssa.Field:
+		if w, we := e.structField(x.X, x.Field, 0); w != nil {
+			return we.funcTargets(w, depth+1)
+		}
+	case *ssa.UnOp:
+		if x.Op != token.MUL {
+			return nil
+		}
+		if f := forwarded(x); f != nil {
+			return e.funcTargets(f, depth+1)
+		}
+		if w, we := e.ctorField(x); w != nil {
+			return we.funcTargets(w, depth+1)
+		}
+		if sv, _ := wholeStructForward(x); sv != nil {
+			if fa, ok := x.X.(*ssa.FieldAddr); ok {
+				if w, we := e.structField(sv, fa.Field, 0); w != nil {
+					return we.funcTargets(w, depth+1)
+				}
+			}
+		}
+		if fv, ok := x.X.(*ssa.FreeVar); ok {
+			if w, we := e.cellValue(fv); w != nil && we != nil {
+				return we.funcTargets(w, depth+1)
+			}
+		}
+		// a field of an object reached through parameters (pointer receiver / pointer parameter): every store into that field of
+		// the allocation it denotes
+		if fa, ok := x.X.(*ssa.FieldAddr); ok {
+			base, env := fa.X, e
+			for d := 0; d < 6; d++ {
+				par, ok := base.(*ssa.Parameter)
+				if !ok {
+					break
+				}
+				a, pe := env.actual(par)
+				if a == nil {
+					return nil
+				}
+				base, env = a, pe
+			}
+			if al, ok := base.(*ssa.Alloc); ok && al.Referrers() != nil {
+				var out []funcTarget
+				for _, r := range *al.Referrers() {
+					f2, ok := r.(*ssa.FieldAddr)
+					if !ok || f2.Field != fa.Field || f2.Referrers() == nil {
+						continue
+					}
+					for _, r2 := range *f2.Referrers() {
+						if st, ok := r2.(*ssa.Store); ok && st.Addr == ssa.Value(f2) {
+							ts := env.funcTargets(st.Val, depth+1)
+							if ts == nil {
+								return nil
+							}
+							out = append(out, ts...)
+						}
+					}
+				}
+				return out
+			}
+		}
+		// a local variable holding a function
+		if al, ok := x.X.(*ssa.Alloc); ok && al.Referrers() != nil {
+			var out []funcTarget
+			for _, r := range *al.Referrers() {
+				if st, ok := r.(*ssa.Store); ok && st.Addr == ssa.Value(al) {
+					ts := e.funcTargets(st.Val, depth+1)
+					if ts == nil {
+						return nil
+					}
+					out = append(out, ts...)
+				}
+			}
+			return out
+		}
+	}
+	return nil
 }
 
 // SubClosure: the env of the function literal created by mc in e's function.
@@ -46,7 +186,7 @@ func (e *Env) SubClosure(mc *ssa.MakeClosure) *Env {
 // cellValue: the single value ever stored into the variable cell bound to free variable fv of this closure — by the
 // enclosing function or by a sibling closure that captures the same cell — with the env to read it in.
 func (e *Env) cellValue(fv *ssa.FreeVar) (ssa.Value, *Env) {
-	if e.closure == nil || e.Parent == nil {
+	if e.closure == nil || e.defining() == nil {
 		return nil, nil
 	}
 	idx := -1
@@ -70,7 +210,7 @@ func (e *Env) cellValue(fv *ssa.FreeVar) (ssa.Value, *Env) {
 		case *ssa.Store:
 			if x.Addr == ssa.Value(cell) {
 				n++
-				val, venv = x.Val, e.Parent
+				val, venv = x.Val, e.defining()
 			}
 		case *ssa.MakeClosure:
 			f2, _ := x.Fn.(*ssa.Function)
@@ -84,7 +224,7 @@ func (e *Env) cellValue(fv *ssa.FreeVar) (ssa.Value, *Env) {
 				for _, r2 := range *f2.FreeVars[j].Referrers() {
 					if st, ok := r2.(*ssa.Store); ok && st.Addr == ssa.Value(f2.FreeVars[j]) {
 						n++
-						val, venv = st.Val, e.Parent.SubClosure(x)
+						val, venv = st.Val, e.defining().SubClosure(x)
 					}
 				}
 			}
@@ -101,8 +241,34 @@ type touchSet struct{ vals map[ssa.Value]bool }
 func (p *Prog) Env(fn *ssa.Function) *Env { return &Env{P: p, Fn: fn} }
 
 func (e *Env) Sub(call ssa.CallInstruction, callee *ssa.Function) *Env {
-	return &Env{P: e.P, Fn: callee, Parent: e, Call: call, depth: e.depth + 1,
+	sub := &Env{P: e.P, Fn: callee, Parent: e, Call: call, depth: e.depth + 1,
 		ctx: e.ctx + "/" + call.Parent().Name() + "." + valueName(call)}
+	cc := call.Common()
+	if cc.IsInvoke() {
+		return sub
+	}
+	if _, isFn := cc.Value.(*ssa.Function); isFn {
+		return sub
+	}
+	if _, isB := cc.Value.(*ssa.Builtin); isB {
+		return sub
+	}
+	// a call of a function value: bind the literal's free variables / the method value's receiver
+	if call.Parent() == e.Fn {
+		for _, t := range e.funcTargets(cc.Value, 0) {
+			if t.fn != callee {
+				continue
+			}
+			if t.mc != nil {
+				sub.closure, sub.defEnv = t.mc, t.defEnv
+			}
+			if t.boundRecv != nil {
+				sub.boundRecv, sub.boundEnv = t.boundRecv, t.defEnv
+			}
+			break
+		}
+	}
+	return sub
 }
 
 func valueName(in ssa.Instruction) string {
@@ -130,6 +296,16 @@ func (e *Env) actual(p *ssa.Parameter) (ssa.Value, *Env) {
 	for i, q := range e.Fn.Params {
 		if q != p {
 			continue
+		}
+		if e.boundRecv != nil && !cc.IsInvoke() {
+			// f := x.m; f(a, b): parameter 0 is x, parameter i is argument i-1
+			if i == 0 {
+				return e.boundRecv, e.boundEnv
+			}
+			if i-1 < len(cc.Args) {
+				return cc.Args[i-1], e.Parent
+			}
+			return nil, nil
 		}
 		if cc.IsInvoke() {
 			if i == 0 {
@@ -819,10 +995,10 @@ func (e *Env) Term(v ssa.Value) string {
 		}
 		return "P:" + paramName(v)
 	case *ssa.FreeVar:
-		if e.closure != nil && e.Parent != nil {
+		if e.closure != nil && e.defining() != nil {
 			for i, q := range e.Fn.FreeVars {
 				if q == v && i < len(e.closure.Bindings) {
-					return "&" + e.Parent.Term(e.closure.Bindings[i])
+					return "&" + e.defining().Term(e.closure.Bindings[i])
 				}
 			}
 		}
@@ -1015,8 +1191,27 @@ func (e *Env) Term(v ssa.Value) string {
 // returned value and the callee env to render it in, or nil. Results of error-returning functions are taken from the
 // success returns only, and only when every use of the result lies on the `err == nil` side of a test of that call's
 // error (usedOnlyOnSuccess); big.Int and callee-allocated objects keep their own treatment (bigTerm, origins).
+// singleCallee: the one module function the call executes: the static callee, or — for a call of a function value — the
+// single literal / function / bound method it resolves to in this calling context.
+func (e *Env) singleCallee(call *ssa.Call) *ssa.Function {
+	if sc := call.Call.StaticCallee(); sc != nil {
+		return sc
+	}
+	if call.Call.IsInvoke() || call.Parent() != e.Fn {
+		return nil
+	}
+	if _, isB := call.Call.Value.(*ssa.Builtin); isB {
+		return nil
+	}
+	ts := e.funcTargets(call.Call.Value, 0)
+	if len(ts) != 1 {
+		return nil
+	}
+	return ts[0].fn
+}
+
 func (e *Env) inlineResult(call *ssa.Call, i int) (ssa.Value, *Env) {
-	sc := call.Call.StaticCallee()
+	sc := e.singleCallee(call)
 	if sc == nil || len(sc.Blocks) == 0 || sc.Pkg == nil || !strings.HasPrefix(sc.Pkg.Pkg.Path(), modPath) || e.depth >= maxDepth {
 		return nil, nil
 	}
@@ -2468,7 +2663,7 @@ func (e *Env) decode0(c ssa.Value, truth bool, why string) []Fact {
 		case strings.HasSuffix(name, "/check.IfNil"):
 			return []Fact{lit(nilAtom(e.Term(args[0])), truth, why)}
 		}
-		if sc := b.Call.StaticCallee(); sc != nil && len(sc.Blocks) > 0 && strings.HasPrefix(sc.Pkg.Pkg.Path(), modPath) && e.depth < maxDepth {
+		if sc := e.singleCallee(b); sc != nil && len(sc.Blocks) > 0 && sc.Pkg != nil && strings.HasPrefix(sc.Pkg.Pkg.Path(), modPath) && e.depth < maxDepth {
 			// boolean module function: add what its `return <truth>` paths guarantee (e.g. mustVerifyPayable)
 			out := []Fact{{Atom: "call:" + FuncName(sc) + "(" + e.termList(args) + ")", Pos: truth, Why: why, Call: b, Env: e}}
 			sub := e.Sub(b, sc)
@@ -3195,6 +3390,10 @@ func (e *Env) boolReturnFactsIdx(idx int, truth bool, why string) []Fact {
 		sets = append(sets, m)
 	}
 	if len(sets) == 0 {
+		// no return of the function can yield this truth value (it constantly returns the other one): the edge is infeasible
+		if len(returnsOf(e.Fn)) > 0 {
+			return []Fact{{Lin: true, LE: leConst(-1), Why: why + " (" + e.Fn.Name() + " never returns " + fmt.Sprint(truth) + ": edge infeasible)"}}
+		}
 		return nil
 	}
 	var keys []string
@@ -4115,7 +4314,20 @@ func (p *Prog) proveLinIn(e *Env, _ []*Env, at ssa.Instruction, goals func(e *En
 	// facts: at the instruction, plus at every call site up the context chain
 	facts := e.LinFactsAt(at, nil)
 	for x := e; x.Parent != nil; x = x.Parent {
-		facts = append(facts, x.Parent.LinFactsAt(x.Call, nil)...)
+		if x.Call != nil {
+			if ci, ok := x.Call.(ssa.Instruction); ok && ci.Parent() == x.Parent.Fn {
+				facts = append(facts, x.Parent.LinFactsAt(x.Call, nil)...)
+			}
+		}
+		// a function literal: what held where it was created (facts about the input and parameters: nothing that names an
+		// intermediate value, which could have changed by the time the literal runs)
+		if x.closure != nil && x.defining() != nil && x.closure.Parent() == x.defining().Fn {
+			for _, f := range x.defining().LinFactsAt(x.closure, nil) {
+				if !strings.Contains(f.Key(), "#") {
+					facts = append(facts, f)
+				}
+			}
+		}
 	}
 	if extra != nil {
 		facts = append(facts, extra(e)...)
@@ -4144,6 +4356,31 @@ func (p *Prog) proveLinIn(e *Env, _ []*Env, at ssa.Instruction, goals func(e *En
 	for top.Parent != nil {
 		top = top.Parent
 	}
+	if top.Fn.Parent() != nil && top.closure == nil && depth < 3 {
+		// a function literal judged on its own: judge it where it is created instead
+		okAll, n := true, 0
+		var bys []string
+		for _, b := range top.Fn.Parent().Blocks {
+			for _, in := range b.Instrs {
+				mc, ok := in.(*ssa.MakeClosure)
+				if !ok || mc.Fn != ssa.Value(top.Fn) {
+					continue
+				}
+				n++
+				ne := rebuildChainEnv(p, e, p.Env(top.Fn.Parent()).SubClosure(mc))
+				r := p.proveLinIn(ne, nil, at, goals, extra, depth+1)
+				if !r.OK {
+					okAll = false
+					r.Facts = append([]string{"where the literal is created in " + FuncName(top.Fn.Parent())}, r.Facts...)
+					return r
+				}
+				bys = append(bys, r.By)
+			}
+		}
+		if okAll && n > 0 {
+			return proofResult{OK: true, By: "holds where the function literal is created: " + strings.Join(bys, " | ")}
+		}
+	}
 	if depth >= 3 || isExportedAPI(top.Fn) || len(p.Callers[top.Fn]) == 0 {
 		var gstr []string
 		for _, g := range gs {
@@ -4167,6 +4404,19 @@ func (p *Prog) proveLinIn(e *Env, _ []*Env, at ssa.Instruction, goals func(e *En
 		bys = append(bys, FuncName(caller)+": "+r.By)
 	}
 	return proofResult{OK: true, By: "precondition established at every call site: " + strings.Join(bys, " | ")}
+}
+
+// rebuildChainEnv re-creates env chain e (top … e) with newTop in place of its outermost env.
+func rebuildChainEnv(p *Prog, e *Env, newTop *Env) *Env {
+	var chain []*Env
+	for x := e; x != nil; x = x.Parent {
+		chain = append([]*Env{x}, chain...)
+	}
+	cur := newTop
+	for _, x := range chain[1:] {
+		cur = cur.Sub(x.Call, x.Fn)
+	}
+	return cur
 }
 
 // rebuildChain re-creates env chain e (top … e) beneath a new outermost caller reached through call site cs.
